@@ -65,6 +65,8 @@ def load_spec():
 HEX = set("0123456789abcdefABCDEF")
 VERSION_RE = re.compile(r"[vV]?(\d+(?:\.\d+)*)\.?")
 CONTAINER_WORDS = {"latest", "dev", "stable", "beta"}
+SEMVER_RE = re.compile(r"[vV]?(0|[1-9][0-9]*)\.(0|[1-9][0-9]*)\.(0|[1-9][0-9]*)"
+                       r"(?:-((?:[0-9A-Za-z-]+)(?:\.[0-9A-Za-z-]+)*))?(?:\+([0-9A-Za-z-]+(?:\.[0-9A-Za-z-]+)*))?")
 
 
 def _int(p):
@@ -94,9 +96,30 @@ def version_verdict(p):
         while len(secs) < 2:
             secs.append(0)
         return tuple(secs) >= (1, 4)
-    if s in CONTAINER_WORDS or any(ch.isdigit() for ch in s):
+    if s in CONTAINER_WORDS:
         return None
-    return False
+    if not any(ch.isdigit() for ch in s):
+        return False
+    # strict semantic versioning: MAJOR.MINOR.PATCH with a pre-release and / or build tag; a pre-release
+    # of x.y.z sorts before x.y.z, build metadata does not take part in the ordering
+    m = SEMVER_RE.fullmatch(s)
+    if m:
+        core = tuple(int(x) for x in m.group(1, 2, 3))
+        if any(len(x) > 4300 for x in m.group(1, 2, 3)):
+            return None
+        return core > (1, 4, 0) or (core == (1, 4, 0) and m.group(4) is None)
+    # nothing any versioning scheme writes: a character outside letters, digits, '.', '+', '-'; an empty
+    # dot-separated section; a leading sign; a dangling '-' or '+'
+    if (any(not (ch.isascii() and (ch.isalnum() or ch in ".+-")) for ch in s)
+            or s[0] in "+-." or s[-1] in "+-" or ".." in s or s.endswith("..")):
+        return False
+    return None
+
+
+def version_modelled(p):
+    """is the string inside the domain the Lean version rule models (numeric sections, or no digit at all)?"""
+    s = p.strip()
+    return bool(VERSION_RE.fullmatch(s)) or (s not in CONTAINER_WORDS and not any(ch.isdigit() for ch in s))
 
 
 def rule_accepts(rule, p):
@@ -231,7 +254,16 @@ VERSION_CORPUS = ["1.3", "1.4", "1.4.0", "01.4", "2", "2.0.0", "v1.5", "1.4.", "
                   "10.0", "1.10", "1.04", "١.٤", "١.٣", "2.0.0-beta", "2.2.0-rc.1", "0x10", "1..4", ".", "1.",
                   ".1", "1,4", "1.4a", "1.4 5", "1", "0", "1.4\n", "\t2.2", "vv1.4", "v", "1.4.-1", "-1.4",
                   "+1.4", "1_0.0", "1.4..", "2.2.0", "2.3.2", "1.5.1", "22.4", "2024.1.1", "1." + "4" * 4300,
-                  "1." + "4" * 4301, "2." + "4" * 4301, "0." + "4" * 4301, "3", "1.٤", "v1.3", "None", "2.0b1"]
+                  "1." + "4" * 4301, "2." + "4" * 4301, "0." + "4" * 4301, "3", "1.٤", "v1.3", "None", "2.0b1",
+                  # semantic versions with pre-release / build tags around 1.4.0
+                  "1.4.0-beta", "1.4.0-alpha.1", "1.4.0-0", "1.4.0-rc.1", "1.4.0+build5", "1.4.0-beta+exp.sha",
+                  "1.3.99-rc.1", "1.3.0-beta", "1.4.1-beta", "1.5.0-rc.2", "2.4.0-alpha", "2.0.0-beta.2",
+                  "2.3.2-SNAPSHOT", "0.9.9+x", "v2.0.0-beta", "10.0.0-pre",
+                  # not versions in any scheme, with a numeric start that is not below 1.4
+                  "2,0", "2.0 beta", "2.0/1", "1.4:0", "2.0.0-", "2.0.0+", "2..0", "1.4...", "2.0_1", "2.0.0-beta!",
+                  "2.x,1", "1.4.é", "2.0\t1", "2.0.0-β",
+                  # unjudged: other schemes and near-versions (robustness and model correspondence only)
+                  "2.0-beta", "1.4.x", "2.x", "1.4rc1", "2.0.dev1", "1.4-1", "1.4.0.dev0", "x2.0"]
 CONFIG_CORPUS = ["M", "I", "m", "i", "MI", " M", "M ", "", "0", "254", "255", "-1", "+254", "0254", "254.0"]
 TIME_CORPUS = ["", "0", "1700000000", "-1", "x", " ", " 5 ", "1.5", "1e9", "١٢٣"]
 GENERIC = ["", "0", "1", "x", " ", "10", "100", "101", "-1", "0.5", "ff00aa", "ff00aa00", "1,2,3", "1.4", "2.2.0",
@@ -520,7 +552,9 @@ def run(tier, seed, driver):
                 if m != r_model:
                     # outside the modelled version domain the model says "rejected"; the real
                     # library may know the string — only robustness is compared there
-                    if c[0] != "C" and oracle_verdict(spec, c) is None and not r.startswith("internal"):
+                    if c[0] != "C" and not r.startswith("internal") and (
+                            oracle_verdict(spec, c) is None
+                            or (spec_rule(spec, c[1], c[4], c[6]) == "version" and not version_modelled(c[7]))):
                         res.count("unmodelled-version-string")
                         continue
                     res.corr_diffs.append({"name": "validate" if c[0] != "C" else "child-validate",
